@@ -86,12 +86,9 @@ FilesOf(d, c) == Flat([li_ \in LI |-> [k \in 1..Len(c[li_]) |-> FileRec(d, li_, 
 DirSets == {D \in SUBSET DirPool : Cardinality(D) <= MaxDirs}
 SeqOfDirs(D) == SelectSeq(DirOrder, LAMBDA d : d \in D)
 
-InputsOf(D) ==
-  LET ds == SeqOfDirs(D)
-  IN  {[root |-> r, modes |-> <<Mode>>, ext |-> ExtList(e), top |-> t, dirs |-> ds,
-        files |-> FilesOf("", rc) \o Flat([k \in 1..Len(ds) |-> FilesOf(ds[k], [li_ \in LI |-> c[<<ds[k], li_>>]])])] :
-         r \in Roots, e \in ExtFilters, t \in Tops, rc \in [LI -> RootOpts], c \in [D \X LI -> CellOpts]}
-Inputs == UNION {InputsOf(D) : D \in DirSets}
+MkInput(r, e, t, ds, rc, c) ==
+  [root |-> r, modes |-> <<Mode>>, ext |-> ExtList(e), top |-> t, dirs |-> ds,
+   files |-> FilesOf("", rc) \o Flat([k \in 1..Len(ds) |-> FilesOf(ds[k], [li_ \in LI |-> c[<<ds[k], li_>>]])])]
 
 -----------------------------------------------------------------------------
 (* the counting engine, as far as coca depends on it *)
@@ -130,7 +127,8 @@ Scc(p, allow, withFiles) ==
 
 -----------------------------------------------------------------------------
 Init ==
-  /\ input \in Inputs
+  /\ \E D \in DirSets, r \in Roots, e \in ExtFilters, t \in Tops, rc \in [LI -> RootOpts] :
+       \E c \in [D \X LI -> CellOpts] : input = MkInput(r, e, t, SeqOfDirs(D), rc, c)
   /\ pc = "start" /\ ret = ""
   /\ DirFilePaths = <<>> /\ FileOutput = "" /\ Format = "tabular" /\ Files = FALSE
   /\ AllowExt = input.ext                      \* flag parsing: --include-ext
